@@ -21,10 +21,10 @@ MANIFEST = {
     "text": "TLC proves termination of the abstract flux loop for every map given the iteration bound (liveness under weak fairness, bounded "
             "counter) and exhibits the non-terminating lasso without it; on the concrete reference map in IEEE arithmetic TLC finds the inputs "
             "that run into the bound (attracting cycles) and these, plus random calls over the C02 domain and whole process/curve models, are run "
-            "on the real solver under an evaluation counter and validated by TLC (every call returns or raises).",
+            "on the real solver under an evaluation counter and validated by TLC (every call returns or raises). tlapm proves the iteration bound for every natural MaxIter, input and map (abstract and concrete machine).",
     "note": "For the code the claim is for explored inputs; 'for every input' rests on the iteration bound observed as GiveUp events. Trusted: "
             "TLC, Java overrides, the wrapper (a counter, never wall-clock).",
-    "technique": "TLA+ liveness checking (TLC) + lasso-guided replay into the real solver + TLC trace validation",
+    "technique": "TLA+ liveness checking (TLC) + lasso-guided replay into the real solver + TLC trace validation + TLAPS proofs about the same specification modules (tlapm)",
 }
 
 
